@@ -717,7 +717,28 @@ class NF:
     def _args(self, e: ast.Call, sc, at, depth):
         args = [self.poly(a, sc, at, depth) for a in e.args]
         kws = {(k.arg if k.arg is not None else "**"): self.poly(k.value, sc, at, depth) for k in e.keywords}
+        if kws and "**" not in kws and isinstance(e.func, ast.Attribute) and not any(isinstance(a, ast.Starred) for a in e.args):
+            order = self._module_call_order(len(args), set(kws))
+            if order is not None:
+                args, kws = args + [kws[k] for k in order], {}
         return args, kws
+
+    def _module_call_order(self, n_pos: int, names: set):
+        """Keywords of a call on an object whose class is not known statically (`critic(sa, zs=zs, zsa=zsa)`, possibly through a
+        *args/**kwargs forwarder) are bound by signature: when every `__call__` of the repository that accepts exactly these keyword
+        names after ``n_pos`` positional arguments puts them in the same order, that order is the positional form."""
+        if not hasattr(self, "_call_sigs"):
+            self._call_sigs = []
+            for q, fn, mi in self.repo.all_functions():
+                if q.endswith(".__call__"):
+                    ps = [a.arg for a in fn.args.posonlyargs + fn.args.args][1:]
+                    if ps and not fn.args.vararg and not fn.args.kwarg:
+                        self._call_sigs.append(ps)
+        orders = set()
+        for ps in self._call_sigs:
+            if len(ps) >= n_pos + len(names) and set(ps[n_pos:n_pos + len(names)]) == names:
+                orders.add(tuple(ps[n_pos:n_pos + len(names)]))
+        return list(orders.pop()) if len(orders) == 1 else None
 
     def _e_Call(self, e: ast.Call, sc, at, depth):
         f = e.func
